@@ -146,20 +146,22 @@ Lemma finish_root_spec : forall s ix b,
 Proof.
   intros s ix b H. unfold finish_root, finish. unfold lk in H. rewrite H.
   change (last_instruction init s) with (last_instr init (cst_of s)).
+  change (existsb (Nat.eqb (instr_len init s)) (jumps s)) with (existsb (Nat.eqb (il init (cst_of s))) (cj (cst_of s))).
   fold (ends_of b). generalize (last_instr init (cst_of s)) as last. intros last.
+  generalize (existsb (Nat.eqb (il init (cst_of s))) (cj (cst_of s))) as tg. intros tg.
   assert (G : forall ends acc,
     let f := fun acc e => match last with
-                          | Some li => if instr_eqb li e && instruction_eqb (fst e) I_EndExpression then acc else push_instr acc e None
+                          | Some li => if instr_eqb li e && instruction_eqb (fst e) I_EndExpression && negb tg then acc else push_instr acc e None
                           | None => push_instr acc e None end in
     let g := fun acc e => match last with
-                          | Some li => if instr_eqb li e && instruction_eqb (fst e) I_EndExpression then acc else emit acc e None
+                          | Some li => if instr_eqb li e && instruction_eqb (fst e) I_EndExpression && negb tg then acc else emit acc e None
                           | None => emit acc e None end in
     cst_of (fold_left f ends acc) = fold_left g ends (cst_of acc) /\
     bnodes (fold_left f ends acc) = bnodes acc /\ root_stack (fold_left f ends acc) = root_stack acc).
   { induction ends as [|e ends IH]; intros acc f g; [cbn; auto|].
     cbn [fold_left]. subst f g. cbv beta.
     destruct last as [li|].
-    - destruct (instr_eqb li e && instruction_eqb (fst e) I_EndExpression); [apply IH|].
+    - destruct (instr_eqb li e && instruction_eqb (fst e) I_EndExpression && negb tg); [apply IH|].
       destruct (IH (push_instr acc e None)) as [A [B C]]. repeat split; assumption.
     - destruct (IH (push_instr acc e None)) as [A [B C]]. repeat split; assumption. }
   apply G.
